@@ -20,6 +20,9 @@ type Entity struct {
 	fIdGenerator func() uint
 
 	muxGenerator sync.Mutex
+
+	// guards the description, which the detailed discovery of a remote entity may update at any time
+	muxDescription sync.RWMutex
 }
 
 var _ api.EntityInterface = (*Entity)(nil)
@@ -52,10 +55,16 @@ func (r *Entity) EntityType() model.EntityTypeType {
 }
 
 func (r *Entity) Description() *model.DescriptionType {
+	r.muxDescription.RLock()
+	defer r.muxDescription.RUnlock()
+
 	return r.description
 }
 
 func (r *Entity) SetDescription(d *model.DescriptionType) {
+	r.muxDescription.Lock()
+	defer r.muxDescription.Unlock()
+
 	r.description = d
 }
 
